@@ -58,10 +58,16 @@ func cmdBounds(args []string) int {
 		return 2
 	}
 	an.Instrs(fn, func(in ssa.Instruction) {
-		switch in.(type) {
+		switch x := in.(type) {
 		case *ssa.IndexAddr, *ssa.Index, *ssa.Slice:
 			ok, why := an.ProveInBounds(in, 64)
 			fmt.Printf("%-28s %-40s %v  %s\n", p.InstrPos(in), in.String(), ok, why)
+		case *ssa.MakeSlice:
+			ok, why := an.ProveMake(x, 64)
+			fmt.Printf("%-28s %-40s %v  %s\n", p.InstrPos(in), in.String(), ok, why)
+			if os.Getenv("SA_BDEBUG") != "" {
+				fmt.Println(an.DebugMake(x, 64))
+			}
 		}
 	})
 	return 0
